@@ -40,9 +40,13 @@ CLAIMED = {
         "condense_dotted_initialisms, condense_number_suffixes (+ condense_indices) and match_quotes, executed from rustc's MIR on "
         "every document of 1..=4 (5) tokens tiling a text (symbolic boundaries, kinds forked from the pass's menu, symbolic "
         "characters), leaves the tokens an exact tiling of the text - no character lost or duplicated - and a number token that "
-        "received an ordinal suffix covers exactly its digits plus the two suffix letters; no MIR assert (overflow/bounds) can fail.",
-        "Outside the claim: condense_contractions / condense_latin / condense_ellipsis (thread-local dyn Pattern objects), the ORDER "
-        "of passes inside Document::parse, Markdown/HTML/Typst/comment front-ends, Mask::parse, CollapseIdentifiers, IsolateEnglish, "
+        "received an ordinal suffix covers exactly its digits plus the two suffix letters; no MIR assert (overflow/bounds) can fail; "
+        "the whole Document::parse pipeline on 2-4 (5) tokens keeps the tiling and pairs quotes mutually. Markdown front-end: "
+        "<Markdown as Parser>::parse (byte->char bookkeeping, event match, wikilink passes) on every text of 3 (4) fully symbolic "
+        "characters of any UTF-8 width with pulldown-cmark replaced by a contract-bound stub event stream (one block, <= 2 inline "
+        "events with ordered byte ranges on char boundaries): no panic, one token per event located on the characters the event "
+        "covers, tokens in bounds and in order.",
+        "Outside the claim: real pulldown-cmark event streams beyond the stub's contract, HTML/Typst/comment front-ends, Mask::parse, CollapseIdentifiers, IsolateEnglish, "
         "decimal number values. mirsym assumes lexer shape invariants (one-char punctuation, Space/Newline counts match widths, no "
         "adjacent words/numbers) and trusts hand-written contracts for std calls (models.py); counterexamples are replayed through "
         "the public API (Document::new_plain_english_curated) before being reported.",
@@ -54,7 +58,9 @@ CLAIMED = {
         "replace_with_match_case keeps length and letters; the Span algebra used to rebase cached lints (pull_by/push_by/pulled_by/"
         "pushed_by/with_offset, overlaps_with, contains, with_len, try_get_content) is decided over full-width usize; "
         "TokenStringExt::span is the tight in-bounds hull of its tokens. mirsym: the span rebasing of LintGroup::lint's clause cache "
-        "(see C05) - cached lints land on the right characters when a clause recurs at another offset.",
+        "(see C05) - cached lints land on the right characters when a clause recurs at another offset; the Markdown front-end places "
+        "every token on the characters of its event for texts with multi-byte characters (kernel of C02), so token-hull lint spans "
+        "lie in the text.",
         "Edit primitive, span plumbing and the cache rebasing of LintGroup::lint (with stub rules). 'Each reported lint's span lies in "
         "the text' is NOT decided for the ~290 real rules.",
         "DESIGN.md section 4, C03"),
@@ -64,10 +70,13 @@ CLAIMED = {
         "fully symbolic characters with the inner (Markdown) parser replaced by a stub that returns one word token over exactly the "
         "slice it is handed: no panic; every word token of the result lies exactly on the characters the inner parser saw (true "
         "offset after stripping leaders, splitting lines, skipping go: directives); inserted Newline tokens are one character wide "
-        "and sit on line feeds; tokens are ordered and inside the comment.",
+        "and sit on line feeds; tokens are ordered and inside the comment. Markdown::parse (kernel of C02, pulldown-cmark stubbed "
+        "by contract) hands the inner parser exactly the characters of each text event at their true character offsets whatever "
+        "multi-byte characters precede them, and turns code spans, HTML and ignored link titles into Unlintable tokens on their "
+        "own characters (texts of 3-4 (5) symbolic characters).",
         "Everything that decides WHICH characters are prose is outside: tree-sitter comment extraction and byte->char conversion "
-        "(harper-tree-sitter, C FFI), the masker and ignore markers, Markdown (pulldown-cmark), HTML, Typst, Literate Haskell, "
-        "git-commit parser, JavaDoc (HtmlParser). Only the re-offsetting arithmetic of three wrappers is decided, on short comments.",
+        "(harper-tree-sitter, C FFI), the masker and ignore markers, pulldown-cmark itself, HTML, Typst, Literate Haskell, "
+        "git-commit parser, JavaDoc (HtmlParser). Only the re-offsetting arithmetic of three comment wrappers and of the Markdown front-end is decided, on short texts.",
         "DESIGN.md section 4, C04"),
     "C05": (
         "Kernel of the property's central mechanism, decided by MIR symbolic execution (mirsym, z3): the real "
@@ -76,8 +85,11 @@ CLAIMED = {
         "stub pattern rules, an association-list model of the LRU cache and a configuration-determined hash, for (a) one call on every "
         "document of 3-4 (5) one-char tokens under all four rule configurations and (b) two successive calls on different documents "
         "of 2+3 (3+3) tokens with a rule toggled in between. On every path the lints of each call equal, in order and span, what the "
-        "enabled rules produce on that document from scratch - whatever was linted before.",
-        "Only the clause cache and rule gate of LintGroup::lint. Not covered: SpellCheck's word cache, thread-local pattern caches, "
+        "enabled rules produce on that document from scratch - whatever was linted before. Second kernel: the real "
+        "SpellCheck::cached_suggest_correct_spelling (LRU look-up, back-off loop, dialect filter, put) called twice with words of "
+        "2-3 (4-5) fully symbolic characters, suggest_correct_spelling and the dictionary stubbed as functions of the word as "
+        "written: the second look-up returns the second word's suggestions whatever was looked up first.",
+        "Only the clause cache and rule gate of LintGroup::lint and SpellCheck's suggestion cache. Not covered: thread-local pattern caches, "
         "lazy statics, threads/processes, harper-ls and harper-wasm reuse of a linter; LRU eviction is not modelled; documents are "
         "restricted to one-char tokens whose kind is a function of the character, so that everything a rule may see is a function "
         "of the clause text (the premise the cache relies on - a rule that looked at absolute token indices, e.g. quote twins, "
@@ -88,9 +100,13 @@ CLAIMED = {
         "The real harper-ls/src/pos_conv.rs (compiled into the harness crate) is decided for every text of <= 3 (4-5) chars over "
         "{LF, CR, a, U+1F600, TAB, e-acute} and every span: span_to_range equals an independent LSP reference (line = LFs before, "
         "character = UTF-16 units since the last LF); range_to_span(span_to_range(s)) == s without panic; a code-action request "
-        "anywhere inside a diagnostic's range selects that lint (the generate_code_actions filter composed from the real functions).",
-        "Outside the claim: lint_to_code_actions (Url, HashMap, serde_json: Kani ICE) so TextEdit.new_text per suggestion kind and the "
-        "lint filtering/ordering inside DocumentState::generate_code_actions are not solver-checked; the server loop.",
+        "anywhere inside a diagnostic's range selects that lint (the generate_code_actions filter composed from the real functions). "
+        "mirsym on the MIR of the harper-ls binary: the real DocumentState::generate_diagnostics and generate_code_actions "
+        "(range_to_span, with_len, the priority sort, the overlap filter, get_token_at_char_index) on documents of 3-4 (5) fully "
+        "symbolic characters with a stub linter reporting 2 (3) lints with symbolic spans and priorities: every lint is published "
+        "and, at the LSP position of every character, fixes are offered for exactly the lints containing it (overlapping ones too).",
+        "Outside the claim: lint_to_code_actions' edit construction (Url, HashMap, serde_json) so TextEdit.new_text per suggestion "
+        "kind is not solver-checked; ignore lists; the server loop and the language front-ends of Backend::update_document.",
         "DESIGN.md section 4, C08"),
     "C11": (
         "Kernel decided by MIR symbolic execution (mirsym, z3): the real LintGroupConfig::{is_rule_enabled, set_rule_enabled, "
@@ -112,7 +128,8 @@ CLAIMED = {
         "time. mirsym: the same partition property from rustc's MIR for 0..=3 (4) tokens, and LintGroup::lint's clause cache kernel "
         "(see C05): what a clause produces does not depend on where it sits or on what was linted before; and a lexing kernel: "
         "lex_email_address, lex_url, lex_hostname_token, lex_number and lex_hex_number give the same token for a paragraph followed by "
-        "a blank line whatever 2 (3) characters follow the break.",
+        "a blank line whatever 2 (3) characters follow the break; SpellCheck's suggestion cache (kernel of C05) does not carry one "
+        "word's suggestions over to another word of an earlier or later paragraph.",
         "A narrow slice of C12: every rule's own index arithmetic, whole-document linters and the condensing passes' commutation "
         "with concatenation are outside.",
         "DESIGN.md section 4, C12"),
